@@ -129,12 +129,26 @@ def check(run: Run) -> None:
     else:
         p_content = cs.node.args.args[0].arg  # type: ignore[attr-defined]
         seal_chain = expand(expand(inner, cs_defs), {}, {p_content: expand(call.args[0], seal_defs)})
-    ver_defs = _single_defs(verify)
-    cmp_node = None
+    def find_cmp(cfg_):
+        found = None
+        for n in cfg_.nodes:
+            if n.kind == "test" and isinstance(n.ast, ast.Compare) and len(n.ast.ops) == 1 and isinstance(n.ast.ops[0], (ast.Eq, ast.NotEq)) and all(isinstance(s, ast.Name) for s in (n.ast.left, n.ast.comparators[0])):
+                found = n
+        return found
+
     cfgv = CFG(verify.node)
-    for n in cfgv.nodes:
-        if n.kind == "test" and isinstance(n.ast, ast.Compare) and len(n.ast.ops) == 1 and isinstance(n.ast.ops[0], (ast.Eq, ast.NotEq)) and all(isinstance(s, ast.Name) for s in (n.ast.left, n.ast.comparators[0])):
-            cmp_node = n
+    cmp_node = find_cmp(cfgv)
+    if cmp_node is None:
+        # single exit with a conditional status (`return R(status=VERIFIED if same else INVALID, ...)`): one return per case
+        from ..inline import split_conditional_returns
+
+        v2 = split_conditional_returns(verify)
+        if v2 is not verify:
+            cfg2 = CFG(v2.node)
+            c2 = find_cmp(cfg2)
+            if c2 is not None:
+                verify, cfgv, cmp_node = v2, cfg2, c2
+    ver_defs = _single_defs(verify)
     if cmp_node is None:
         run.instance("R15.2", mod.loc(verify.node), "verify_seal: equality test between two names", ok=False)
         run.violation("R15.2", mod, verify.qualname, "recomputed == stored", "verify_seal has no equality test between the recomputed digest and the stored one (prefix/containment tests accept tampered hashes)")
@@ -234,6 +248,19 @@ def check(run: Run) -> None:
                         if isinstance(x, ast.Name) and x.id not in ("isinstance", "Section"):
                             x.id = "_"
                     out.append(ast.unparse(n2))
+                elif any(isinstance(x, ast.Name) and mod.has_const(x.id) and run.project.try_fold(mod, x) == "SEAL" for v in n.values for x in ast.walk(v)):
+                    # the key spelled as a module-level constant
+                    from ..inline import clone
+
+                    n2 = clone(n)
+                    class K(ast.NodeTransformer):
+                        def visit_Name(self, x: ast.Name):  # noqa: N802
+                            if mod.has_const(x.id) and run.project.try_fold(mod, x) == "SEAL":
+                                return ast.Constant(value="SEAL")
+                            if x.id not in ("isinstance", "Section"):
+                                x.id = "_"
+                            return x
+                    out.append(ast.unparse(ast.fix_missing_locations(K().visit(n2))))
         return out
 
     preds = {fi.qualname: seal_predicates(fi) for fi in (rm, ex)}
@@ -244,7 +271,7 @@ def check(run: Run) -> None:
         if not ok:
             run.violation("R15.4", mod, q, "SEAL section predicate", f"{q} recognises the SEAL section by {ps} instead of `{want_pred}`: removal and extraction would disagree, or non-SEAL content would be excluded from the hash")
     # removal comprehension keeps everything else
-    comp = [n for n in walk_no_nested(rm.node) if isinstance(n, ast.ListComp)]
+    comp = [n for n in walk_no_nested(rm.node) if isinstance(n, ast.ListComp) or (isinstance(n, ast.GeneratorExp) and isinstance(getattr(n, "_parent", None), ast.Call) and ast.unparse(n._parent.func) in ("list", "tuple") and len(n._parent.args) == 1)]  # type: ignore[attr-defined]
     ok = len(comp) == 1 and len(comp[0].generators) == 1 and len(comp[0].generators[0].ifs) == 1 and isinstance(comp[0].generators[0].ifs[0], ast.UnaryOp) and isinstance(comp[0].generators[0].ifs[0].op, ast.Not) and isinstance(comp[0].elt, ast.Name) and ast.unparse(comp[0].generators[0].iter).endswith(".sections")
     run.instance("R15.4", mod.loc(rm.node), "_remove_seal_section: keeps every section for which the SEAL predicate is false, unchanged", ok=ok)
     if not ok:
@@ -261,6 +288,27 @@ def check(run: Run) -> None:
         if not ok and not digest_vars:
             # no compute_seal call: the stored value must itself expand to the SHA-256 chain R15.1 compares with verification
             ok = ast.unparse(expand(v, _single_defs(seal))) == "hashlib.sha256(emit(_remove_seal_section(doc)).encode('utf-8')).hexdigest()"
+    if not ok and not hash_assign:
+        # table-driven: `Assignment(key=name, value=D[name]) for name in FIELDS` with D bound from compute_seal(...), "HASH" among the
+        # constant FIELDS, and D['HASH'] rewritten at most by stripping its quotes
+        digest_vars = {a.targets[0].id for a in walk_no_nested(seal.node) if isinstance(a, ast.Assign) and len(a.targets) == 1 and isinstance(a.targets[0], ast.Name) and isinstance(a.value, ast.Call) and ast.unparse(a.value.func) == "compute_seal"}
+        for c, cls in am.constructions(seal):
+            if cls != "Assignment":
+                continue
+            kw = {k.arg: k.value for k in c.keywords}
+            comp = getattr(c, "_parent", None)
+            if not (isinstance(comp, (ast.ListComp, ast.GeneratorExp)) and comp.elt is c and len(comp.generators) == 1 and isinstance(comp.generators[0].target, ast.Name)):
+                continue
+            lv = comp.generators[0].target.id
+            fields = run.project.try_fold(mod, comp.generators[0].iter)
+            v = kw.get("value")
+            if is_name(kw.get("key"), lv) and isinstance(fields, (tuple, list)) and "HASH" in fields and isinstance(v, ast.Subscript) and isinstance(v.value, ast.Name) and v.value.id in digest_vars and is_name(v.slice, lv):
+                d = v.value.id
+                # the only filter allowed is presence in D
+                filt_ok = all(ast.unparse(f) == f"{lv} in {d}" for f in comp.generators[0].ifs)
+                stores = [a for a in walk_no_nested(seal.node) if isinstance(a, (ast.Assign, ast.AugAssign)) and any(isinstance(t, ast.Subscript) and is_name(t.value, d) for t in (a.targets if isinstance(a, ast.Assign) else [a.target]))]
+                stores_ok = all(isinstance(a, ast.Assign) and ast.unparse(a.targets[0]) == f"{d}['HASH']" and ast.unparse(a.value) == f"{d}['HASH'].strip('\"')" for a in stores)
+                ok = filt_ok and stores_ok
     run.instance("R15.4", mod.loc(seal.node), "seal_document: the HASH assignment stores compute_seal's digest", ok=ok)
     if not ok:
         run.violation("R15.4", mod, seal.qualname, "Assignment(key='HASH', ...)", "the stored HASH is not compute_seal's digest (through at most strip of the quotes)")
